@@ -154,10 +154,17 @@ impl<T> SocksRequest<T> {
         socket.write_u8(self.cmd).await.context("cmd")?;
         let (dst, dport, target) = match &self.target {
             TargetAddress::DomainPort(domain, port) => {
+                if domain.as_bytes().contains(&0) {
+                    bail!("host name can not be sent in socks4a: contains NUL");
+                }
                 ([0, 0, 0, 1], *port, Some(domain.as_bytes()))
             }
             TargetAddress::SocketAddr(a) => {
                 if let IpAddr::V4(v4) = a.ip() {
+                    if u32::from(v4) < 0x100 {
+                        // 0.0.0.x announces a socks4a host name
+                        bail!("address can not be sent in socks4: {}", self.target)
+                    }
                     (v4.octets(), a.port(), None)
                 } else {
                     bail!("ipv6 not supported in socks4: {}", self.target)
